@@ -185,10 +185,18 @@ class TextContent(BaseModel):
         converted_text = ""
         for char in text:
             unicode_int = ord(char)
-            if unicode_int <= 255 and unicode_int != 177:
+            if unicode_int <= 127:
                 converted_text += char
+                continue
+            # RTF \u takes a signed 16-bit value: split astral characters into
+            # a UTF-16 surrogate pair and shift values above 32767 down
+            if unicode_int > 0xFFFF:
+                offset = unicode_int - 0x10000
+                code_units = [0xD800 + (offset >> 10), 0xDC00 + (offset & 0x3FF)]
             else:
-                rtf_value = unicode_int - (0 if unicode_int < 32768 else 65536)
+                code_units = [unicode_int]
+            for code_unit in code_units:
+                rtf_value = code_unit - (0 if code_unit < 32768 else 65536)
                 converted_text += f"\\uc1\\u{rtf_value}*"
 
         text = converted_text
